@@ -315,11 +315,11 @@ OpenNewOK(e) ==
          /\ Major(e.fmt) = Major(e.afmt) /\ Sub(e.fmt) = Sub(e.afmt)
 
 \* existing file produced earlier in this scenario (closed file, or crash image)
-OpenWrittenOKx(e, f, est) ==
+OpenWrittenOKy(e, f, est, anyrate) ==
     LET info == [ch |-> e.ch, fmt |-> e.fmt, rate |-> e.rate, fr |-> e.fr, frneg |-> e.frneg, sec |-> e.sec] IN
     /\ e.ok = 1 /\ e.gerr = 0 /\ e.st.er = 0
     /\ Sane(info)
-    /\ InfoMatches(f.fmt, f.ch, f.rate, info)
+    /\ InfoMatchesX(f.fmt, f.ch, f.rate, info, anyrate)
     /\ e.st.fr = e.fr /\ e.st.rp = 0
     /\ IF f.kind = "written" THEN (IF est /\ Major(f.fmt) = M_RAW /\ Sub(f.fmt) \in {S_DWVW12, S_DWVW16, S_DWVW24, S_DWVWN}
                                    THEN e.fr >= 0            \* headerless bit stream, the count is an estimate from the file length
@@ -328,6 +328,7 @@ OpenWrittenOKx(e, f, est) ==
             IF Sub(f.fmt) \in {S_DWVW12, S_DWVW16, S_DWVW24, S_DWVWN} THEN e.fr <= f.N
             ELSE FramesInImage(f.B, f.N, e.fr)
 
+OpenWrittenOKx(e, f, est) == OpenWrittenOKy(e, f, est, FALSE)
 OpenWrittenOK(e, f) == OpenWrittenOKx(e, f, FALSE)
 
 OpenHostileOK(e) ==
@@ -336,12 +337,23 @@ OpenHostileOK(e) ==
 
 FileOf(e) == files[e.fid]
 
+\* foreign files: one content per file id (ids 700 + fid are never handed out by ncid), shared by every handle that opens it;
+\* the first open records what the file is, later opens through any route must agree
+ForeignCid(e) == 700 + e.fid
+ForeignInfo(e) == IF e.ok = 1 THEN <<1, e.ch, e.rate, e.fmt, e.fr>> ELSE <<0>>
+OpenForeignOK(e) ==
+    LET cv == cont[ForeignCid(e)] IN
+    /\ IF e.ok = 0 THEN OpenFailedOK(e)
+       ELSE e.gerr = 0 /\ e.st.er = 0 /\ Sane([ch |-> e.ch, fmt |-> e.fmt, rate |-> e.rate, fr |-> e.fr, frneg |-> e.frneg, sec |-> e.sec])
+    /\ (cv.info # <<>>) => cv.info = ForeignInfo(e)
+
 OpenClass(e) ==
     LET f == FileOf(e) IN
     IF e.mode = "w" \/ f.kind \in {"none", "empty"} THEN "new"
     \* (RDWR on a block encoding is accepted by the library but no I/O works on such a handle: outside C08, only C03-level sanity is required)
     ELSE IF f.kind \in {"written", "image"} /\ ~FaultOn(e) /\ ~CfgRelax /\ (f.kind = "image" => f.valid)
             /\ ~(e.mode = "rw" /\ ~IsGranular(f.fmt)) THEN "written"
+    ELSE IF f.kind = "foreign" /\ e.mode = "r" /\ ~FaultOn(e) /\ ~CfgRelax THEN "foreign"
     ELSE "hostile"
 
 OpenOK(e) ==
@@ -352,6 +364,7 @@ OpenOK(e) ==
          /\ ~(e.route # "pipe" /\ e.mode = "r" /\ OpenClass(e) = "written" /\ Major(FileOf(e).fmt) \in {M_WAV, M_WAVEX, M_AIFF, M_AU}) -> OpenFailedOK(e)
       [] OpenClass(e) = "new" -> IF FaultOn(e) \/ CfgRelax THEN (e.ok = 0 => OpenFailedOK(e)) ELSE OpenNewOK(e)
       [] OpenClass(e) = "written" -> OpenWrittenOK(e, FileOf(e))
+      [] OpenClass(e) = "foreign" -> OpenForeignOK(e)
       [] OTHER -> OpenHostileOK(e)
 
 \* content seen by the new handle
@@ -359,7 +372,14 @@ OpenEffect(e) ==
     LET f == FileOf(e) cls == OpenClass(e) h == e.h
         B == BlockFrames(e.fmt, e.ch, e.rate)
         relax == FaultOn(e) \/ CfgRelax \/ cls = "hostile" IN
-    IF e.ok = 0 THEN UNCHANGED <<hs, cont, ncid>>
+    IF e.ok = 0 THEN (IF cls = "foreign" THEN cont' = [cont EXCEPT ![ForeignCid(e)].info = ForeignInfo(e)] /\ UNCHANGED <<hs, ncid>>
+                      ELSE UNCHANGED <<hs, cont, ncid>>)
+    ELSE IF cls = "foreign" THEN
+         LET cid == ForeignCid(e)  cv == cont[cid]  n == e.fr * e.ch
+             cv2 == IF cv.info = <<>> THEN [NewContent EXCEPT !.val = Rep(0, n), !.kt = Rep("-", n), !.info = ForeignInfo(e)] ELSE cv IN
+         /\ hs' = [hs EXCEPT ![h] = NewHandle(e, cid, B, FALSE)]
+         /\ cont' = [cont EXCEPT ![cid] = cv2]
+         /\ ncid' = ncid
     ELSE IF cls = "written" /\ cont[f.cid].gen = f.gen THEN
          \* share the content of the writer; frames beyond what was written (block padding) are unknown
          LET cv == cont[f.cid] n == e.fr * e.ch
@@ -427,7 +447,9 @@ FileEffect(e) ==
              files' = [files EXCEPT ![e.fid] = [kind |-> "image", cid |-> s.cid, N |-> cv.hdrN, B |-> s.B, fmt |-> s.fmt, ch |-> s.ch,
                                                  rate |-> s.rate, gen |-> cv.gen,
                                                  valid |-> (cv.hdrN = s.frames /\ ~s.relax /\ s.route = "vio")]]
-    ELSE files' = [files EXCEPT ![e.fid] = [kind |-> "hostile"]]
+    \* (a file given as bytes is hostile input unless the scenario vouches for it -- trust=1: a valid file not written by this library;
+    \*  such a file must then give the same SF_INFO, samples and outcomes through every route, C14)
+    ELSE files' = [files EXCEPT ![e.fid] = [kind |-> IF Get(cfg, "trust", 0) = 1 THEN "foreign" ELSE "hostile"]]
 
 -----------------------------------------------------------------------------
 \* C09: every error number has a non-empty text; the text of a recorded error is non-empty and NUL terminated
@@ -478,6 +500,8 @@ Obs ==
 \*  finding about it does not cover anything else that may go wrong with such a file)
 Why(e) ==
     IF e.op = "open" /\ OpenClass(e) = "written" /\ OpenWrittenOKx(e, FileOf(e), TRUE) THEN "open:est"
+    \* (a file that re-opens fine except for the sample rate it reports: the reason known findings about rate fields are keyed by)
+    ELSE IF e.op = "open" /\ OpenClass(e) = "written" /\ OpenWrittenOKy(e, FileOf(e), FALSE, TRUE) THEN "open:rate"
     ELSE IF e.op = "read" /\ e.T # "r" /\ e.h >= 0 /\ hs[e.h].life = "open" /\ Has(e, "st") /\ ~hs[e.h].relax /\ ~FaultOn(e)
             /\ ReadOKx(hs[e.h], cont[hs[e.h].cid], CallOf(e), ObsOf(e), TRUE) THEN "read:est"
     ELSE IF e.op = "open" THEN "open:" \o OpenClass(e)
